@@ -3,6 +3,7 @@ package quic
 import (
 	"context"
 	"errors"
+	"fmt"
 	"net"
 
 	"github.com/refraction-networking/uquic/internal/protocol"
@@ -77,6 +78,13 @@ func (t *UTransport) dial(ctx context.Context, addr net.Addr, host string, tlsCo
 	if t.QUICSpec != nil {
 		t.QUICSpec.UpdateConfig(conf)
 		initialPN = t.QUICSpec.InitialPacketSpec.initialPN()
+		// [UQUIC] The server decodes the first Initial's truncated packet number against
+		// "nothing received yet", so it only recovers a number that fits its own encoding. A spec
+		// asking for e.g. InitPacketNumber 300 in 1 byte can never complete a handshake: reject it
+		// here instead of letting the dial time out.
+		if pnLen := t.QUICSpec.InitialPacketSpec.firstPNLen(initialPN); pnLen >= 1 && pnLen <= 4 && int64(initialPN) >= int64(1)<<(8*pnLen) {
+			return nil, fmt.Errorf("uquic: InitPacketNumber %d cannot be encoded in the %d byte(s) the spec gives the first Initial packet", initialPN, pnLen)
+		}
 	}
 
 	tlsConf = tlsConf.Clone()
